@@ -15,7 +15,8 @@ LEVEL_TEXT = ("Proof + correspondence: Coq model of BaseFeatureWriter.setContext
               "the real setContext/_insert on generated feature files parsed by feaLib, and the leaf-preservation statement is "
               "evaluated in Coq on the real output. Observed on the implementation: user statements of the debug feature file in "
               "order, GSUB bytes identical with the default writers vs none, no duplicate of an unmarked hand-written feature, "
-              "GSUB writers run first.")
+              "GSUB writers run first."
+              " BaseFeatureWriter._contextAt is TRANSLATED from /repo's source on every run (harness/fea_from_source.py -> Generated/FeaGen.v) and proved equal to the model (Fea/ContextTied.v): the context theorems are restated about the translated code.")
 LEVEL_NOTE = ("Trusted: Coq kernel, hand model (correspondence-tested), harness, feaLib parser/serialiser. That feaLib builds GSUB "
               "from the user's statements only is environment, observed through the byte comparison.")
 TECHNIQUE = "Coq proof that _insert preserves the user's statement sequence (all inputs) + vm_compute correspondence with the real _insert; GSUB byte comparison"
